@@ -5,3 +5,4 @@
 #undef close
 #undef posix_madvise
 #undef getenv
+#undef free
